@@ -11,7 +11,7 @@ PROP = "C16"
 LEVEL = "exploration"
 ENGINE = "MET"
 N = {"quick": 1000, "thorough": 50000}
-TIME = {"quick": 45, "thorough": 480}
+TIME = {"quick": 300, "thorough": 480}
 RULE = ("Random valid level Series and 1-3-column DataFrames: length 2-2000, daily / business-daily / intraday (several observations "
         "per day) / irregular indices spanning >= 1 day, level scales 1e-3..1e6, daily volatility >= 1e-4, with float or series "
         "risk-free and a benchmark. Every listed metric (returns, CAGR, volatility, drawdown series, max drawdown, VaR, ES, downside/"
